@@ -124,8 +124,7 @@ class CallGraph:
                     self._add(f, n, "iter", callees)
                 elif is_async or (t == ANY or t[0] == "list") and not isinstance(it, ast.Call):
                     # iteration over a caller supplied (async) iterable / an Any-typed stream object
-                    if t[0] != "list" or is_async:
-                        self._add(f, n, "iter", self._iter_by_name(it, f, is_async))
+                    self._add(f, n, "iter", self._iter_by_name(it, f, is_async))
             elif isinstance(n, ast.Attribute) and isinstance(n.ctx, ast.Load):
                 p = parent(n)
                 if isinstance(p, ast.Call) and p.func is n:
